@@ -261,12 +261,13 @@ class CheckRun:
         os.makedirs(os.path.join(VERIF, "evidence"), exist_ok=True)
         with open(os.path.join(VERIF, "evidence", self.prop + ".json"), "w") as f:
             json.dump(ev, f, indent=1, default=str)
+            f.write("\n")
         if self.tier == "thorough" and not os.environ.get("VERIF_REPO"):
             # the last thorough run is kept next to the per-property evidence file (which the next quick run overwrites)
             os.makedirs(os.path.join(VERIF, "evidence_thorough"), exist_ok=True)
             with open(os.path.join(VERIF, "evidence_thorough", self.prop + ".json"), "w") as f:
                 json.dump(ev, f, indent=1, default=str)
-            f.write("\n")
+                f.write("\n")
         for l in lines:
             print(l)
         print("%s tier=%s evaluations=%s distinct=%s exhaustive=%s wall=%.1fs violations=%d" % (
